@@ -123,6 +123,10 @@ pub trait Prop {
     fn sanity(&self, _stats: &Stats, _tier: Tier) -> Vec<String> {
         vec![]
     }
+    /// Upper bound on worker processes (process creation does not scale in this sandbox).
+    fn max_workers(&self) -> Option<usize> {
+        None
+    }
     /// Extra keys merged into the evidence's `coverage` object (components, step counts…).
     fn evidence_extra(&self, _stats: &Stats) -> Json {
         json!({})
